@@ -271,6 +271,27 @@ pub fn run(ctx: &Ctx) -> (Spec, Report) {
                     prog.items.sort_by(|x, y| x.mods.cmp(&y.mods));
                 }
             }
+            // a fifth of the programs: a tagged enum gets two more unit variants whose names differ only in the case of their
+            // last letters (`QxxxxxId`, `QxxxxxID`): whatever a backend derives from a variant's name (member keys, constants,
+            // case names), each of them is still one variant of the output
+            if rng.chance(1, 5) {
+                let mut stems = crate::gen::Stems::default();
+                let st = loop {
+                    let s = stems.fresh(rng);
+                    if !prog.stems.contains_key(&s) {
+                        break s;
+                    }
+                };
+                if let Some(it) = prog.items.iter_mut().find(|i| i.is_annotated() && matches!(&i.kind, Kind::Enum { tag: Some(_), content: Some(_), .. })) {
+                    if let Kind::Enum { variants, .. } = &mut it.kind {
+                        let at = rng.below(variants.len() + 1);
+                        let (a, b) = *rng.pick(&[("Id", "ID"), ("Url", "URL"), ("Ok", "OK")]);
+                        variants.insert(at, Variant::new(&format!("{}{a}", crate::gen::cap(&st)), VKind::Unit));
+                        let at2 = rng.range(at + 1, variants.len());
+                        variants.insert(at2, Variant::new(&format!("{}{b}", crate::gen::cap(&st)), VKind::Unit));
+                    }
+                }
+            }
             // items declared inside function bodies and anonymous const blocks are annotated items like any other
             if rng.chance(1, 3) {
                 let container = *rng.pick(&["fn_local_items", "constblock"]);
